@@ -10,7 +10,7 @@
 (***************************************************************************)
 EXTENDS Integers
 
-Targets == {"absent", "stdout", "file", "dir"}
+Targets == {"absent", "stdout", "file", "emptyfile", "dir"}
 
 (* observation o: [exit ("ok"|"error"|"crash"), imageAtTarget, stdoutIsImage, stdoutEmpty, preexistingSame] *)
 RunOK(inputOk, target, o) ==
@@ -19,5 +19,5 @@ RunOK(inputOk, target, o) ==
   /\ IF ~inputOk THEN o.exit = "error"
      ELSE CASE target = "absent" -> o.exit = "ok" /\ o.imageAtTarget
             [] target = "stdout" -> o.exit = "ok" /\ o.stdoutIsImage      \* the image and only the image
-            [] target \in {"file", "dir"} -> o.exit = "error"
+            [] target \in {"file", "emptyfile", "dir"} -> o.exit = "error"      \* an existing file is existing whatever its size
 =============================================================================
